@@ -68,6 +68,22 @@ def main(argv: List[str]) -> int:
                           'seed': seed, 'gen': 'Commented', 'variant': 'inert-random', 'noise': noise}
     res = docs.run_items(list(items.values()), rep, 'C14')
     doccheck.judge('C14', rep, res, items, lambda it: True)
+    # output side: every renderer emits the comment with its element (-- lines in SQL, // lines in
+    # DBML placed so that the DBML output parses back to the same comment)
+    from . import sqlcheck, render, c02
+    nm = doccheck.budget(120, 2500)
+    ms = docs.gen_models(lo + 50000, lo + 50000 + nm - 1, False, True, rep)
+    out_items: Dict[int, Dict[str, Any]] = {}
+    for seed, dm in ms:
+        for route in ('parsed', 'built'):
+            tid += 1
+            out_items[tid] = {'tid': tid, 'route': route, 'doc': dm['doc'], 'model': dm['model'], 'fseed': None, 'pinned': {},
+                              'seed': seed, 'variant': 'output'}
+    sres = sqlcheck.run_items(list(out_items.values()), rep, 'C14 sql')
+    sqlcheck.judge('C14', ['c14'], rep, sres, out_items, lambda it: True)
+    dres = render.run_items(list(out_items.values()), rep, 'C14 dbml')
+    c02.judge('C14', ['comments'], rep, dres, out_items, lambda it: True)
+    rep.notes['output_side_models'] = len(ms)
     rep.notes['capture_cases'] = sum(1 for i in items.values() if i['variant'] == 'capture')
     rep.notes['inert_cases'] = sum(1 for i in items.values() if i['variant'] != 'capture')
     for tid in [t for t in items if items[t]['variant'] == 'capture'][:1] + [t for t in items if items[t]['variant'] == 'inert-random'][:1]:
